@@ -1,5 +1,6 @@
 import Feox.Props.C10
 import Feox.Fmt.WriteRead
+import Feox.Fmt.Commit
 /-!
 # C10 (continued) — the writer's bytes are what the reader accepts
 
